@@ -9,7 +9,7 @@ from props import _worldfam as F
 
 PID = 'C11'
 GENERATORS = ['consts']
-LEAN_TARGETS = ['EosProofs.Props.C11']
+LEAN_TARGETS = ['EosProofs.Props.C11', 'EosProofs.Props.C11World']
 DRIVERS = ['drv_world']
 TRUSTED = F.WORLD_TRUSTED
 RULE = ('after each generated history (all parameter sets incl. fleets and source switches) everything is removed in a '
@@ -24,12 +24,12 @@ ASSUMPTIONS = ['tear-down stays outside the class of known finding K1 (an item r
 CLAUSES = {
     'nothing removed influences what remains': 'the Lean spec is a function of the current configuration only (removed_item_no_influence, evalAll_no_items); impl tied to it per step (L1/L2)',
     'removed items and fits can be reused with from-scratch results': 'correspondence: re-used items vs Lean spec; machine level: C01 incremental_eq_scratch',
-    'no service, register, subscription, override or cache retains any entry': 'impl-level emptiness walk (enumeration over generated histories); register-level Lean model pending',
+    'no service, register, subscription, override or cache retains any entry': 'message-level model: after the canonical tear-down of every item the dynamic state is empty on the configuration, hence every declarative register content (specs, affectees, direct sets, deps) and every cache entry is empty, and the tear-down is a legal run when projectors let go first (C11World.teardown_all_registers_empty, registers_empty, teardown_all_legal, history_then_teardown); the concrete buckets of affection.py / projection.py, restriction / stat registers and subscriptions: impl-level emptiness walk (enumeration)',
 }
 LEVEL_TEXT = ('Lean: values are functions of the current configuration (an item outside it cannot influence anything; '
               'an empty configuration has an empty value table). Residue freedom itself is checked on the real code by '
               'a generic emptiness walk after randomised complete tear-downs, and re-use of removed items against the spec.')
-LEVEL_NOTE = 'The emptiness clause is enumeration over generated histories, not a theorem (register-level model not yet built); same trusted base as C01.'
+LEVEL_NOTE = 'Registers are modelled by their declarative content (what they select); emptiness of the concrete Python buckets and subscriptions is enumeration over generated histories; same trusted base as C01.'
 TECHNIQUE = 'Lean 4 spec lemmas (configuration-functionality) + differential re-use check + emptiness walk'
 
 
